@@ -2,8 +2,9 @@
 package c09
 
 import (
-	"strings"
 	"context"
+	eth2api "github.com/attestantio/go-eth2-client/api"
+	"strings"
 
 	"encoding/json"
 	"fmt"
@@ -277,10 +278,19 @@ func TestC09Aggregate(t *testing.T) {
 		specFaults := 0
 		if rapid.IntRange(0, 2).Draw(rt, "beaconSpecFault") == 0 {
 			specFaults = rapid.IntRange(1, 2).Draw(rt, "specFaults")
-			bn.Fail("spec", specFaults)
+			// ... as a plain error, as the typed error an HTTP client reports for a 5xx answer, or as a timeout
+			faultErr := []error{nil, &eth2api.Error{Method: "GET", Endpoint: "/eth/v1/config/spec", StatusCode: 503, Data: []byte("service unavailable")},
+				&eth2api.Error{Method: "GET", Endpoint: "/eth/v1/config/spec", StatusCode: 500, Data: []byte("internal error")}, fmt.Errorf("spec: %w", context.DeadlineExceeded)}[rapid.IntRange(0, 3).Draw(rt, "faultKind")]
+			faultAt := rapid.SampledFrom([]string{"spec", "domain"}).Draw(rt, "faultAt")
+			if faultErr == nil {
+				bn.Fail(faultAt, specFaults)
+			} else {
+				bn.FailAs(faultAt, specFaults, faultErr)
+			}
 		}
 		err = agg.Aggregate(ctx, duty, input)
 		bn.Fail("spec", 0)
+		bn.Fail("domain", 0)
 		if corruption == "none" && specFaults > 0 && err != nil {
 			if len(got) != 0 {
 				rt.Fatalf("SUBSCRIBER CALLED DESPITE ERROR: %s: %d subscriber calls although Aggregate returned %v (transient beacon fault)", k.Name, len(got), err)
